@@ -144,6 +144,30 @@ def run(repo='/repo', tier='quick'):
             res.check(ok or not pct and False, 'C12.c', '%s:%s:arm' % (g.name, fl), 'raised in the %s arm' % ('percent-encoded' if want == '==' else 'raw byte'),
                       '%s is raised in the wrong arm of the percent test' % fl, a['loc'])
 
+    # every byte produced by the %u path decoder goes through the encoded-separator test before it is returned
+    g = db.get('decode_u_encoding_path')
+    nret = 0
+    for b, i, st in g.returns():
+        rv = P.ret_value(st)
+        if rv is None:
+            continue
+        nret += 1
+        rk = P.K(rv)
+        passed = False
+        # some block that dominates the return tests the returned value against '/'
+        dom = C.dominators(g)
+        for tb in g.blocks:
+            cnd = g.cond_of(tb)
+            if cnd and tb in dom[b]:
+                a = P.canon(cnd[0])
+                if a and a[0] == rk and a[1] == '==' and a[2] in ("'/'", '47'):
+                    tsucc = g.blocks[tb]['succs'][0]
+                    raises = any(l.get('name') == 'HTP_PATH_ENCODED_SEPARATOR' for bb in C.reachable(g, tsucc) for s2 in g.blocks[bb]['stmts'] for aa in nodes(s2, lambda y: y.get('k') == 'assign' and y['op'] == '|=') for l in nodes(aa['r'], lambda y: y.get('k') == 'lit'))
+                    passed = raises and not C.written_between_simple(g, tb, b, rk) if hasattr(C, 'written_between_simple') else raises
+        res.check(passed, 'C12.c', 'decode_u_encoding_path:separator-test-before-return', 'the decoded byte is tested for an encoded separator (and HTP_PATH_ENCODED_SEPARATOR raised) before every return',
+                  'decode_u_encoding_path can return a decoded byte (%s) that never went through the encoded-separator test: %%u002f would decode to / without HTP_PATH_ENCODED_SEPARATOR' % rk, st['loc'])
+    res.floor('C12.c', 'returns of decode_u_encoding_path', nret, 1)
+
     # every NUL test of the two decoders is followed by its indicator (sibling arms agree)
     for gname, enc, raw in (('htp_decode_path_inplace', 'HTP_PATH_ENCODED_NUL', 'HTP_PATH_RAW_NUL'), ('htp_urldecode_inplace_ex', 'HTP_URLEN_ENCODED_NUL', 'HTP_URLEN_RAW_NUL')):
         g = db.get(gname)
